@@ -316,8 +316,14 @@ check_vfd(Ctx& x, const char* where)
 {
     if (x.c.ended)
         return true;
-    if (vfd::violation())
-        return x.c.fail("C16", "descriptor-not-owned", vfd::violation_kind(), "%s (%s): %s", where, kKindName[x.kind], vfd::violation());
+    if (vfd::violation()) {
+        // soft in runs that decide another property: the wrong descriptor use is C16's, what it does to the
+        // files is what the C14 / C15 oracles are there to see
+        bool ended = x.c.fail_soft("C16", "descriptor-not-owned", vfd::violation_kind(), "%s (%s): %s", where, x.kind >= 0 ? kKindName[x.kind] : "?", vfd::violation());
+        vfd::clear_violation();
+        if (ended)
+            return true;
+    }
     if (vfd::stats().runaway)
         return x.c.fail("C16", "runaway", x.kind >= 0 ? kKindName[x.kind] : "?", "%s (%s): more than %ld OS-level file calls inside one device call (unbounded recursion or write loop)",
                         where, kKindName[x.kind], vfd::op_call_bound());
@@ -1269,7 +1275,7 @@ vh_run(const VhTok* tape, size_t n, VhReport* rep)
     std::vector<int> dummies;
     if (n && vh_mix64(tape[0].a * 31u + tape[0].kind * 7u + 3) % 6 == 0) {
         for (int k = 0; k < 262; ++k) {
-            int fd = ::open("/dev/null", O_RDONLY);
+            int fd = ::open("/dev/null", O_RDWR); // (writable: a write that goes astray succeeds silently)
             if (fd < 0)
                 break;
             dummies.push_back(fd);
